@@ -315,6 +315,22 @@ def desugar_enumerate(text, log):
     return text
 
 
+# ---------------- R13 wildcard closure parameters
+def name_wildcard_closure_params(text, log):
+    masked = lex.mask(text)
+    out = []
+    pos = 0
+    n = 0
+    for m in re.finditer(r"\|_\|", masked):
+        out.append(text[pos:m.start()])
+        out.append("|_vp_unused|")
+        pos = m.end()
+        n += 1
+    out.append(text[pos:])
+    log.hit("R13 wildcard closure parameter named", n)
+    return "".join(out)
+
+
 def apply_all(text, log, refcell=False, keep_vis=False):
     text = resolve_cfg(text, log)
     text = drop_attrs_and_docs(text, log)
@@ -325,5 +341,6 @@ def apply_all(text, log, refcell=False, keep_vis=False):
         text = erase_refcell(text, log)
     text = desugar_slice_patterns(text, log)
     text = desugar_enumerate(text, log)
+    text = name_wildcard_closure_params(text, log)
     text = opaque_error_text(text, log)
     return text
